@@ -14,11 +14,22 @@ Per project written to disk (an e2e.Project):
     single-file parser `parser_logic::parse_file` alone — the model's `content`
     parameter;
   * the extracted model prints the FileLibrary (path, user flag), the
-    OS / include / parse error reports, their primary file ids and the
-    user-input ids;
-  * the ground truth's FileLibrary, its P1000 (ReportCode::ParseFail) reports —
-    every report of the stages the Includes mirror covers has that code, and no
-    other parse-stage report has it — and `user_inputs` are brought to the same form.
+    OS / include / parse error reports, and — through Model.Front.report_of —
+    the category (as Gen.Category.display prints it), the code id, the code name
+    and the primary file ids of every parse-stage report of the project handed
+    to the runner, and the user-input ids.  The numbers of the code
+    (parameters pf_id / pf_name of Model.Front) are what `ReportCode::ParseFail`
+    of the current tree answers to `id()` / `name()` (harness `front code`);
+  * the ground truth's FileLibrary, its reports of the Includes stage —
+    recognised by their FORM (message `Failed to open file ..`, `Unterminated
+    comment.`, the label text of ParsingError), not by level or code — with the
+    category, code id, code name and primary file ids of the real `Report`, and
+    `user_inputs` are brought to the same form.  A parse-stage report with the
+    ParseFail code of any other form is kept too (kind `other`), so it shows
+    up as a disagreement; the remaining parse-stage reports (pragma, main
+    components, sugar removal, ProgramArchive) are counted, not compared.
+
+`class_table()` reads Spec.NoSilentSpec.class_table through the extracted driver.
 """
 import json
 import os
@@ -148,13 +159,42 @@ def abstracts(projects):
     return abss
 
 
+PF_ID_NUM, PF_NAME_NUM = 1000, 2000      # the numbers the check gives to ParseFail's id() and name() on the model's line
+
+
+def parse_fail_code():
+    """{"id": .., "name": ..}: ReportCode::ParseFail.id() / .name() of the tree under test (harness `front code`)."""
+    hb = common.build_harness("front")
+    rc, out, err = common.sh([hb, "code"], timeout=60)
+    try:
+        code = json.loads(out)
+        return {"id": str(code["id"]), "name": str(code["name"])}
+    except (ValueError, KeyError, TypeError):
+        raise common.BuildError("harness front code: unusable answer", (out + err)[-400:])
+
+
+def class_table():
+    """Spec.NoSilentSpec.class_table as printed by the extracted driver: {class: (producer, shape)} (constructor names)."""
+    mb = common.build_model("front")
+    rc, out, err = common.sh([mb, "classes"], timeout=60)
+    tab = {}
+    for l in out.splitlines():
+        w = l.split()
+        if len(w) != 3 or w[0] in tab:
+            raise common.BuildError("model_front classes: unusable line %r" % l, (out + err)[-400:])
+        tab[w[0]] = (w[1], w[2])
+    if rc != 0 or not tab:
+        raise common.BuildError("model_front classes failed", (out + err)[-400:])
+    return tab
+
+
 def run_model(abss):
     mb = common.build_model("front")
     lines, idx = [], []
     for i, a in enumerate(abss):
         l = a.line()
         if l is not None and not any(v["c"] in ("panic", "bad-line") for v in a.contents.values()):
-            lines.append(l)
+            lines.append("%s\t%d\t%d" % (l, PF_ID_NUM, PF_NAME_NUM))
             idx.append(i)
     out = common.run_lines(mb, ["run"], lines, shards=common.NPROC, timeout=900) if lines else []
     if len(out) != len(lines):
@@ -168,52 +208,77 @@ def run_model(abss):
     return res
 
 
-def normalise_truth(t):
-    """The ground truth (raw JSON of `e2e truth`) in the model's output form."""
+TOKEN_LABEL = "This token is invalid or unexpected here."
+
+
+def normalise_truth(t, code, counts=None):
+    """The ground truth (raw JSON of `e2e truth`) in the model's output form. The reports of the Includes stage are
+    recognised by their form alone; level, code id and code name are reported as the real `Report` has them."""
     if t.get("panic") or t.get("bad_input"):
         return None
-    reps, pfiles = [], []
+    reps, full = [], []
     for r in t["parse_reports"]:
-        if r["id"] != "P1000":
-            continue
         m = re.match(r"Failed to open file `(.*)`\.$", r["message"], re.S)
+        labels = [l.get("msg") for l in r["primary"]]
         if m and not r["primary"]:
             reps.append(["os", m.group(1)])
         elif m:
             l = r["primary"][0]
             reps.append(["inc", m.group(1), l["file"], l["start"], l["end"]])
-        elif r["primary"]:
+        elif r["primary"] and (labels[0] == TOKEN_LABEL or r["message"] == "Unterminated comment." or r["id"] == code["id"]):
             reps.append(["perr", r["primary"][0]["file"]])
-        else:
+        elif r["id"] == code["id"]:
             reps.append(["other", r["message"][:80]])
-        pfiles.append(list(r["pfiles"]))
+        else:
+            if counts is not None:
+                counts["other_stage_parse_reports_not_compared"] += 1
+            continue
+        full.append([r["level"], r["id"], r["name"], list(r["pfiles"])])
     return {"status": "ok", "files": [[f["path"], bool(f["user"])] for f in t["files"]], "reports": reps,
-            "pfiles": pfiles, "user_ids": sorted(f["id"] for f in t["files"] if f["user"])}
+            "full": full, "user_ids": sorted(f["id"] for f in t["files"] if f["user"])}
 
 
 def compare(projects, raw_truths):
-    """-> (disagreements, stats). A disagreement: {"project", "model", "impl"}."""
+    """-> (disagreements, stats). A disagreement: {"project", "model", "impl"}.
+    stats["hypothesis_broken"]: projects on which the premise `canon idempotent` of the theorems does not hold."""
+    code = parse_fail_code()
+    names = {PF_ID_NUM: code["id"], PF_NAME_NUM: code["name"]}
     abss = abstracts(projects)
     models = run_model(abss)
     dis = []
     stats = {"compared": 0, "not_encodable": 0, "truth_unavailable": 0, "canon_idempotent": 0,
+             "canon_not_idempotent": 0, "hypothesis_broken": [],
              "with_os_error": 0, "with_parse_error": 0, "with_include_error": 0,
-             "named_file_read_as_include_first": 0}
+             "named_file_read_as_include_first": 0,
+             "parse_fail_code": code, "reports_compared_level_and_code": 0, "levels_seen": {}, "codes_seen": {},
+             "other_stage_parse_reports_not_compared": 0, "not_compared_tags": []}
     for p, a, m, t in zip(projects, abss, models, raw_truths):
         if m is None:
             stats["not_encodable"] += 1
+            stats["not_compared_tags"].append(p.tag)
             continue
-        n = normalise_truth(t)
+        n = normalise_truth(t, code, stats)
         if n is None:
             stats["truth_unavailable"] += 1
+            stats["not_compared_tags"].append(p.tag)
             continue
         stats["compared"] += 1
-        if m.pop("canon_idempotent", False):
-            stats["canon_idempotent"] += 1
+        if m.get("status") == "ok":
+            if m.pop("canon_idempotent", False):
+                stats["canon_idempotent"] += 1
+            else:
+                stats["canon_not_idempotent"] += 1
+                stats["hypothesis_broken"].append(p.describe())
         m["user_ids"] = sorted(m.get("user_ids", []))
+        # the model's numbers back to the strings they stand for
+        m["full"] = [[lv, names.get(i, "#%s" % i), names.get(nm, "#%s" % nm), pf] for lv, i, nm, pf in m.get("full", [])]
+        for lv, i, nm, pf in n["full"]:
+            stats["levels_seen"][lv] = stats["levels_seen"].get(lv, 0) + 1
+            stats["codes_seen"][i + "/" + nm] = stats["codes_seen"].get(i + "/" + nm, 0) + 1
         if m != n:
             dis.append({"project": p.describe(), "model": m, "impl": n})
             continue
+        stats["reports_compared_level_and_code"] += len(n["full"])
         kinds = {r[0] for r in n["reports"]}
         stats["with_os_error"] += "os" in kinds
         stats["with_parse_error"] += "perr" in kinds
@@ -223,6 +288,7 @@ def compare(projects, raw_truths):
         named = [os.path.realpath(x) for x in a.argv if os.path.isfile(x)]
         order = [f[0] for f in n["files"]]
         stats["named_file_read_as_include_first"] += _included_first(named, order, a)
+    stats["not_compared_tags"] = stats["not_compared_tags"][:20]
     return dis, stats
 
 
